@@ -70,6 +70,8 @@ struct Shim {
   // write to a file below cgroot / redirected proc,sys opened for writing:
   // returns bytes "written" (>=0) or -errno.
   std::function<long(const std::string& path, const std::string& data)> on_write;
+  // called for every directory entry handed to the code under test: (directory path, entry name)
+  std::function<void(const std::string& dir, const std::string& name)> on_readdir;
   long aux{-1}; // set by on_write: processes a cgroup.kill write found (-1 otherwise)
   // called before every file access with the (redirected) path and a kind tag
   std::function<AccessDecision(const std::string& path, const char* kind)>
